@@ -14,11 +14,11 @@ import (
 var serveExplain = map[string]string{
 	"C02": "Structural necessary conditions in the server's per-connection loop, decided for every path of the loop by exhaustive exploration of a finite abstraction (booleans, nil-ness, rule event bits): (R1) a request with 'Expect: 100-continue' whose body was not read (ExpectHandler / ContinueHandler rejection) is answered with Connection: close and never followed by another iteration; (R2) on every path from the handler to the next iteration the code has established, on the request that was actually served (not on a ctx swapped in by the timeout path), that there is no connection-backed body stream or that requestStream.fullyRead() is true - otherwise the close decision is true; the stream object is only released after that. (R3) a length-limited reader over the connection that is handed to a parser which may stop early (multipart pre-parse) is drained before success is reported; (R4) the flag behind fullyRead() for chunked bodies is raised only after the trailer section was read and its error examined, in every function that sets it; (R-pool) the pooled stream object starts clean: each of its fields (chunk remainder, byte count, end-of-body flag, declared length ...) is assigned on every path of its release or of its acquire function, so a body is never decoded with the leftovers of another connection's body. Not decided: the exact byte offset at which the next request starts for all inputs.",
 	"C10": "Structural necessary conditions of the keep-alive decision in the serve loop: (R1) the condition guarding SetConnectionClose depends (through phis, && / ||, and helper functions) on each documented source: DisableKeepalive, request and response Connection: close, MaxRequestsPerConn, CloseOnShutdown+stop, Expect/Continue rejection, unread streamed body; (R2) on every path: decision true => Connection: close is set on the response object that is written and no further iteration follows; decision false on a non-HTTP/1.1 request => Connection: keep-alive is set; (R2d) the loop is left after a written response, on the server's own decision, only when that response carried Connection: close; (R3) the decision does not read per-request bookkeeping from a ctx that was swapped in after the handler (timeout path); (R4) every comparison of a header value with the 'close' token - in the request and response head parsers and in the header setters - is made by a case-insensitive, list-aware matcher, never by an exact byte comparison, so 'Connection: Close' and 'keep-alive, close' count as close on both the server and the client side, and while a head is parsed a store to the close flag can only raise it (several Connection lines form one list); (R5) in the client transport the decision to pool a connection whose body is handed out as a stream is taken from a value computed when the response arrived - the boolean captured by the stream-close callback depends on the response's Connection: close - and not only from the caller-owned response header as it looks when the stream is closed. Not decided: what the matcher accepts as token separators, client side reuse beyond the parsed flag.",
-	"C11": "Structural necessary conditions of 'no state leaks between requests': (E7) every leaf field of Request, Response, RequestHeader, ResponseHeader, URI, Args, Cookie and RequestCtx is assigned (or known nil, or reset through its pointee) on every path of the type's reset method including callees, or is in a table of reasoned exemptions (scratch buffers, configuration, self pointers) - a newly added field is a violation until reset or exempted; (R-loop) every variable of the serve loop that survives an iteration is re-assigned before it is read in a later iteration on every path, or the loop provably ends; (R-reset) every path from the handler to the next iteration passes Request.Reset and Response.Reset; (R-ctx) every field of RequestCtx that a handler can set through an exported method and that the serve loop reads (hijack handler, no-response switch, timeout response) is cleared, found zero, or left behind with a replaced ctx on every path to the next request - neither Request.Reset nor Response.Reset touches them. Not decided: that getters return exactly what the current request sent.",
-	"C14": "The sequence of ConnState values the serve loop reports, decided on every path of the loop as an automaton: StateActive only follows New/Idle, StateIdle only follows Active, the handler and the response write happen in Active, an iteration that continues ends in Idle, and StateActive is only reported on a path on which a read of at least one byte succeeded; (R3) every function that runs the serve loop itself and reports states (ServeConn) reports StateNew before serving and, on every path to its return after serving, exactly one terminal state - StateHijacked exactly when the loop returned errHijacked, StateClosed otherwise. Not decided: the reports made by the worker pool (C13.R2 decides its terminal action) and cross-goroutine ordering.",
-	"C15": "Structural necessary conditions of graceful shutdown inside the serve loop, on every path: the per-connection idle marker is zero while the handler runs (so Shutdown's idle closer cannot close a busy connection), it is set non-zero after the response before the connection waits for the next request, the stop flag is tested after every response, and (R5) a response that was written into the connection writer is flushed before the writer is dropped whenever the serve function ends with a nil result (shutdown, client stopped sending) - so no answered request loses its response on a graceful end; (R6) in the shutdown code the Done channel is closed only under a false 'already closed' flag and the flag is raised after it, and wherever the channel reference is dropped the flag is lowered again on every path - otherwise the next Serve/Shutdown cycle of the same Server never closes its requests' Done channels. Not decided: Shutdown's poll loop and listener handling, liveness, interleavings.",
+	"C11": "Structural necessary conditions of 'no state leaks between requests': (E7) every leaf field of Request, Response, RequestHeader, ResponseHeader, URI, Args, Cookie and RequestCtx is assigned (or known nil, or reset through its pointee) on every path of the type's reset method including callees, or is in a table of reasoned exemptions (scratch buffers, configuration, self pointers) - a newly added field is a violation until reset or exempted; (R-loop) every variable of the serve loop that survives an iteration is re-assigned before it is read in a later iteration on every path, or the loop provably ends; (R-reset) every path from the handler to the next iteration passes Request.Reset and Response.Reset; (R-ctx) every field of RequestCtx that a handler can set through an exported method and that the serve loop reads (hijack handler, no-response switch, timeout response) is cleared, found zero, or left behind with a replaced ctx on every path to the next request - neither Request.Reset nor Response.Reset touches them; (R-loop-owned, R-pool, R-scratch) the reasons given for exemptions are checked too: a field the serve loop owns is assigned by it before every handler dispatch, every field of a pooled helper object is assigned by its release or its acquire function, and no function uses the old content or length of a scratch buffer. Not decided: that getters return exactly what the current request sent.",
+	"C14": "The sequence of ConnState values the serve loop reports, decided on every path of the loop as an automaton: StateActive only follows New/Idle, StateIdle only follows Active, the handler and the response write happen in Active, an iteration that continues ends in Idle, and StateActive is only reported on a path on which a read of at least one byte succeeded; (R3) every function that runs the serve loop itself and reports states (ServeConn) reports StateNew before serving and, on every path to its return after StateNew was reported (served or turned away), exactly one terminal state - StateHijacked exactly when the loop returned errHijacked, StateClosed otherwise. Not decided: the reports made by the worker pool (C13.R2 decides its terminal action) and cross-goroutine ordering.",
+	"C15": "Structural necessary conditions of graceful shutdown inside the serve loop, on every path: the per-connection idle marker is zero while the handler runs (so Shutdown's idle closer cannot close a busy connection), it is set non-zero after the response before the connection waits for the next request, the stop flag is tested after every response, and (R5) a response that was written into the connection writer is flushed before the writer is dropped whenever the serve function ends with a nil result (shutdown, client stopped sending) - so no answered request loses its response on a graceful end; (R6) in the shutdown code the Done channel is closed only under a false 'already closed' flag and the flag is raised after it, and wherever the channel reference is dropped the flag is lowered again on every path - otherwise the next Serve/Shutdown cycle of the same Server never closes its requests' Done channels; (E1) the open-connection counter Shutdown waits on is exact: ServeConn, serveConnCounted, serveConnCleanup and Serve each have the net effect on it that their contract states, on every path - a connection that is counted down twice lets Shutdown return nil while a handler is still running. Not decided: Shutdown's poll loop and listener handling, liveness, interleavings.",
 	"C16": "Structural necessary conditions for timed-out handlers, on every path of the serve loop's timeoutResponse != nil branch: the response is written from a freshly acquired ctx into which the stored response was copied (R1); the timed-out ctx is never released to the pool by the loop (R2); no per-request field the loop stored on the old ctx is read from the fresh one (R3); (R6) the concurrency slot a timeout wrapper takes from Server.concurrencyCh is taken without blocking (429 otherwise), and it is given back only by code that has run the wrapped handler to its end - in the goroutine that calls it, after the call - exactly once; never by the wrapper's own frame, which returns when the timeout fires while the handler still runs; the semaphore field is read only by code that creates the channel when it is missing (a nil channel would turn every call into a 429); (R7) every bookkeeping field the serve function keeps on the ctx (connection id, connection time, request number, request time) is assigned on every path from each point where the ctx object is acquired or replaced to the handler dispatch, so requests served after a timed-out one see them. Not decided: what the late handler does with the old ctx, scheduling.",
-	"C17": "Structural necessary conditions of connection hijacking, on every path: the response is written and flushed before the hand-off unless HijackSetNoResponse is in effect (R1); after 'go hijackConnHandler' the serve function performs no I/O on the connection and releases neither ctx nor the handed-over reader (R3); it returns errHijacked exactly on hand-off paths (R4); hijackConnHandler closes the connection after the user's handler unless KeepHijackedConns and releases the ctx (R5); hijack state a handler put on the ctx without hijacking does not survive into a later request of the connection (R6). Not decided: byte-exact hand-over of buffered data, callers' reaction to errHijacked.",
+	"C17": "Structural necessary conditions of connection hijacking, on every path: the response is written and flushed before the hand-off unless HijackSetNoResponse is in effect (R1); after 'go hijackConnHandler' the serve function performs no I/O on the connection and releases neither ctx nor the handed-over reader (R3); it returns errHijacked exactly on hand-off paths (R4); hijackConnHandler closes the connection after the user's handler unless KeepHijackedConns and releases the ctx (R5); hijack state a handler put on the ctx without hijacking does not survive into a later request of the connection (R6); every method of the connection wrapper handed to the hijack handler takes data off the connection only through the buffered reader that still holds what the client sent with the hijacking request, never from the raw connection (R7). Not decided: byte-exact hand-over of buffered data, callers' reaction to errHijacked.",
 }
 
 func init() {
@@ -28,11 +28,13 @@ func init() {
 			p.serveLoop(id).report(r, id)
 			if id == "C17" {
 				hijackHandlerRule(p, r)
+				hijackReadPathRule(p, r)
 			}
 			if id == "C11" {
 				resetCoverageRule(p, r)
 				loopOwnedFieldsRule(p, r)
 				pooledHelperRule(p, r, "")
+				scratchPremiseRule(p, r, "R-scratch")
 			}
 			if id == "C11" || id == "C17" {
 				r.Floor("R-ctx", "handler-settable ctx fields read by the serve loop", p.serveLoop(id).counts["R-ctx handler-settable ctx fields read by the serve loop"], 3)
@@ -50,6 +52,8 @@ func init() {
 			}
 			if id == "C15" {
 				doneChannelRule(p, r)
+				// Shutdown returns nil when Server.open reaches zero: the counter has to be exact (same obligations as C12's)
+				runC12x(p, r, true)
 			}
 			if id == "C02" {
 				limitedReaderDrainRule(p, r)
@@ -592,7 +596,17 @@ func connStateCallersRule(p *Prog, r *Report) {
 				}
 			},
 			Exit: func(x *Explorer, st *State, ret *ssa.Return, pan *ssa.Panic) {
-				if ret == nil || !st.Has(bServed) {
+				if ret == nil {
+					return
+				}
+				if !st.Has(bServed) {
+					// a connection that was announced with StateNew and then turned away still ends in a terminal state
+					if st.Has(bNew) {
+						nret++
+						if !st.Has(bHij) && !st.Has(bClosed) {
+							fail(x, st, "StateNew was reported, the connection was not served, and the function returns without reporting StateClosed")
+						}
+					}
 					return
 				}
 				nret++
@@ -1298,4 +1312,192 @@ func clientCloseCaptureRule(p *Prog, r *Report) {
 			"the callback decides from the response header as it looks when the stream is closed; the header belongs to the caller (a proxy strips hop-by-hop headers before it copies the body), so a connection the server announced it will close goes back to the pool")
 	}
 	r.Floor("R5", "stream-close callbacks that can pool the connection", n, 1)
+}
+
+// scratchPremiseRule: the reset coverage exempts scratch buffers (bufK, bufV, mulHeader, Args.buf) with the reason
+// "written before it is read within every call that uses it". That reason is checked here: in every function of the
+// module, a use of what such a field holds - its bytes or its length - is preceded on every path inside that
+// function by an assignment to the field; the only thing a function may do with the old value is truncate it to
+// zero length to reuse the capacity. A function that looks at the old content turns the buffer into state that
+// outlives the call (a cache), which no Reset clears.
+func scratchPremiseRule(p *Prog, r *Report, rule string) {
+	isScratch := func(fv *types.Var, owner string) bool {
+		switch fv.Name() {
+		case "bufK", "bufV", "mulHeader":
+			return true
+		case "buf":
+			return owner == "Args"
+		}
+		return false
+	}
+	type site struct {
+		fn  *ssa.Function
+		pos string
+		ok  bool
+	}
+	byField := map[string][]site{}
+	for _, fn := range p.SrcFuncs() {
+		for _, b := range fn.Blocks {
+			for _, in := range b.Instrs {
+				ld, ok := in.(*ssa.UnOp)
+				if !ok || ld.Op != token.MUL {
+					continue
+				}
+				fa, ok := ld.X.(*ssa.FieldAddr)
+				if !ok {
+					continue
+				}
+				fv := fieldVar(fa.X.Type(), fa.Field)
+				owner := typeNameOf(fa.X)
+				if fv == nil || !isScratch(fv, owner) {
+					continue
+				}
+				key := owner + "." + fv.Name()
+				// (a) an assignment to the field dominates this load
+				written := false
+				for _, bb := range fn.Blocks {
+					for _, i2 := range bb.Instrs {
+						if st, ok := i2.(*ssa.Store); ok {
+							if fa2, ok := st.Addr.(*ssa.FieldAddr); ok && fa2.Field == fa.Field && typeNameOf(fa2.X) == owner && dominatesInstr(i2, in) {
+								written = true
+							}
+						}
+					}
+				}
+				// a closure runs inside the call that made it: an assignment in the enclosing function before the closure
+				// was created counts
+				if !written && fn.Parent() != nil {
+					par := fn.Parent()
+					for _, pb := range par.Blocks {
+						for _, pi := range pb.Instrs {
+							mc, ok := pi.(*ssa.MakeClosure)
+							if !ok || mc.Fn != ssa.Value(fn) {
+								continue
+							}
+							for _, bb := range par.Blocks {
+								for _, i2 := range bb.Instrs {
+									if st, ok := i2.(*ssa.Store); ok {
+										if fa2, ok := st.Addr.(*ssa.FieldAddr); ok && fa2.Field == fa.Field && typeNameOf(fa2.X) == owner && dominatesInstr(i2, pi) {
+											written = true
+										}
+									}
+								}
+							}
+						}
+					}
+				}
+				// (b) or every use of the loaded value only truncates it to length zero (directly, or inside the helper it
+				// is handed to as the destination buffer)
+				onlyTruncated := true
+				if !written {
+					onlyTruncated = truncatingUses(ld, 0)
+				}
+				byField[key] = append(byField[key], site{fn, p.Pos(ld.Pos()), written || onlyTruncated})
+			}
+		}
+	}
+	var keys []string
+	for k := range byField {
+		keys = append(keys, k)
+	}
+	sort.Strings(keys)
+	n := 0
+	for _, k := range keys {
+		bad := map[string]bool{}
+		pos := "-"
+		for _, s := range byField[k] {
+			n++
+			if !s.ok {
+				bad[funcName(s.fn)] = true
+				if pos == "-" {
+					pos = s.pos
+				}
+			}
+		}
+		r.Check(rule, k+" is a scratch buffer: no function looks at what an earlier call left in it", len(bad) == 0, pos,
+			"the field is exempt from Reset as 'written before it is read within every call', but these functions use its old content or length: "+joinSorted(bad)+" - the buffer has become a cache that survives Reset, CopyTo and pooling")
+	}
+	r.Floor(rule, "reads of scratch buffer fields", n, 20)
+}
+
+// truncatingUses: every use of v cuts it to length zero before anything else is done with it - a Slice v[:0], or
+// passing v to a module function whose corresponding parameter is itself only used that way (the "dst" of an
+// init/append helper). Such a use reuses the capacity and never looks at the old bytes or the old length.
+func truncatingUses(v ssa.Value, depth int) bool {
+	if depth > 3 || v.Referrers() == nil {
+		return false
+	}
+	for _, ref := range *v.Referrers() {
+		switch u := ref.(type) {
+		case *ssa.DebugRef:
+		case *ssa.Slice:
+			k, isK := constInt(u.High)
+			if u.X != v || u.High == nil || !isK || k != 0 {
+				return false
+			}
+		case *ssa.Call:
+			if bi, ok := u.Call.Value.(*ssa.Builtin); ok && bi.Name() == "cap" {
+				continue // the capacity says nothing about what an earlier call stored
+			}
+			g := u.Call.StaticCallee()
+			if g == nil || !inModule(g) || len(g.Blocks) == 0 {
+				return false
+			}
+			for i, a := range u.Call.Args {
+				if a == v {
+					if i >= len(g.Params) || !truncatingUses(g.Params[i], depth+1) {
+						return false
+					}
+				}
+			}
+		default:
+			return false
+		}
+	}
+	return true
+}
+
+// hijackReadPathRule (C17.R7): see the explanation text.
+func hijackReadPathRule(p *Prog, r *Report) {
+	n := 0
+	fromRawConn := func(v ssa.Value) bool {
+		for i := 0; i < 5; i++ {
+			switch w := v.(type) {
+			case *ssa.Extract:
+				v = w.Tuple
+			case *ssa.TypeAssert:
+				v = w.X
+			case *ssa.MakeInterface:
+				v = w.X
+			case *ssa.ChangeInterface:
+				v = w.X
+			default:
+				_, fv := loadedField(v)
+				return fv != nil && fv.Name() == "Conn"
+			}
+		}
+		return false
+	}
+	for _, fn := range p.funcsIn("") {
+		if recvTypeName(fn) != "hijackConn" {
+			continue
+		}
+		n++
+		bad := ""
+		pos := p.Pos(fn.Pos())
+		allCalls(fn, func(b *ssa.BasicBlock, c ssa.CallInstruction) {
+			cc := c.Common()
+			if cc.IsInvoke() && (cc.Method.Name() == "Read" || cc.Method.Name() == "WriteTo") && fromRawConn(cc.Value) {
+				bad = cc.Method.Name() + " on the wrapped connection"
+				pos = p.Pos(c.Pos())
+			}
+			if f := cc.StaticCallee(); f != nil && f.Pkg != nil && f.Pkg.Pkg.Path() == "io" && strings.HasPrefix(f.Name(), "Copy") && len(cc.Args) >= 2 && fromRawConn(cc.Args[1]) {
+				bad = "io." + f.Name() + " with the wrapped connection as its source"
+				pos = p.Pos(c.Pos())
+			}
+		})
+		r.Check("R7", fmt.Sprintf("%s takes data off the connection only through the buffered reader", funcName(fn)), bad == "", pos,
+			bad+": the bytes the client sent together with the hijacking request sit in the buffered reader the wrapper holds; a read that goes to the raw connection skips them (they are lost, or arrive after later bytes)")
+	}
+	r.Floor("R7", "methods of the hijacked-connection wrapper", n, 2)
 }
